@@ -80,6 +80,13 @@ func serveQuiet(p *Program, code map[string][]byte, sid string, mode string, inp
 	req, call := 0, 0
 	rs := &sharedResource{prog: p, code: code, pseed: pseed, req: &req, call: &call}
 	cfg := engine.Config{Root: p.Root, FlagCount: uint32(p.FlagCount), OutputSize: uint32(p.OutputSize), SessionId: sid}
+	// every other history is served by an application with a configured default language (a function of the history, so the
+	// solo and the concurrent run agree); the language the session ends each request with is part of the transcript
+	if pseed%2 == 0 {
+		cfg.Language = "nor"
+	}
+	var lst *state.State
+	var lpe *persist.Persister
 	var out []string
 	var en *engine.DefaultEngine
 	var store dbLike = newMemStore()
@@ -95,9 +102,11 @@ func serveQuiet(p *Program, code map[string][]byte, sid string, mode string, inp
 				store = fs
 			}
 			if mode == "P" || mode == "F" {
-				en = en.WithPersister(persist.NewPersister(store))
+				lpe = persist.NewPersister(store)
+				en = en.WithPersister(lpe)
 			} else {
-				en = en.WithState(state.NewState(uint32(p.FlagCount))).WithMemory(cache.NewCache())
+				lst = state.NewState(uint32(p.FlagCount))
+				en = en.WithState(lst).WithMemory(cache.NewCache())
 			}
 		}
 		line := ""
@@ -116,7 +125,14 @@ func serveQuiet(p *Program, code map[string][]byte, sid string, mode string, inp
 			if mode == "P" || mode == "F" {
 				ferr = en.Finish(ctx) != nil
 			}
-			line = fmt.Sprintf("%v|%v|%v|%s", cont, err != nil, ferr, w.String())
+			lg := ""
+			if lpe != nil && lpe.GetState() != nil {
+				lst = lpe.GetState()
+			}
+			if lst != nil && lst.Language != nil {
+				lg = lst.Language.Code
+			}
+			line = fmt.Sprintf("%v|%v|%v|%s|%s", cont, err != nil, ferr, lg, w.String())
 		}()
 		out = append(out, line)
 		req++
